@@ -239,7 +239,7 @@ def getter_order_agreement(ctx):
                 zz = zz.args[0]
             if isinstance(zz, ast.Call) and call_name(zz) == "zip" and [norm(a) for a in zz.args] == [f"self.{S}", f"self.{P}"]:
                 comp_ok = True  # zip(S, P) itself yields (timestamp, position)
-            if isinstance(zv, ast.ListComp) and isinstance(zv.generators[0].iter, ast.Call) \
+            if isinstance(zv, (ast.ListComp, ast.GeneratorExp)) and isinstance(zv.generators[0].iter, ast.Call) \
                     and call_name(zv.generators[0].iter) == "zip":
                 zargs = [norm(a) for a in zv.generators[0].iter.args]
                 tgt = zv.generators[0].target
